@@ -356,6 +356,195 @@ def run_C03(ctx):
     finish_tie(ctx, broken, dis, found=bool(bad))
 
 
+
+def toy_signature(real, solver):
+    """order-insensitive part of a toy result"""
+    if real[0].startswith('verdict abort'):
+        return ('abort',)
+    d = {l.split(' ', 1)[0]: (l.split(' ', 1)[1] if ' ' in l else '') for l in real}
+    return (real[0], d.get('v', ''), d.get('forms', ''), tuple(sorted(set(solver.unimplemented_fields()))),
+            tuple(sorted((k, tuple(sorted(set(ws)))) for k, ws in solver.unmet_input_dependencies().items())),
+            tuple(sorted((k, tuple(sorted(set(ws)))) for k, ws in solver.unmet_field_dependencies().items())),
+            d.get('inputs', ''))
+
+
+def run_C04(ctx):
+    import solver_oracles as so
+    broken = check_obligations(ctx, PROPS['C04']['theorems'])
+    dis, reals, runs = tie_solver(ctx, broken)
+    checked, bad, solved = 0, [], 0
+    for c, real, solver, log, prompts in reals:
+        if real[0] == 'verdict solved':
+            checked += 1
+            for p in so.oracle_c04(solver, True, c.forms):
+                bad.append(('toy', c.protocol(), p))
+    for r in runs:
+        if r['exception'] is None and r['ok']:
+            checked += 1
+            solved += 1
+            for p in so.oracle_c04(r['solver'], True, r['forms']):
+                bad.append(('scenario', scenario_replay(r), p))
+    ctx.statement['c04-closure'] = {
+        'checked': checked, 'violations': len(bad), 'distinct_nontrivial': solved,
+        'rule': 'every solved real return: required lines present, every line read by a present line present with its form, and the set of lines/forms equals the closure recomputed from the request with read-recording accessors; non-trivial = solved return of the shipped forms',
+        'samples': [{'year': r['year'], 'forms': sorted(r['solver'].forms)[:8]} for r in runs if r['exception'] is None and r['ok']][:2]}
+    for kind, rep, p in bad:
+        ctx.report('closure:' + p[:70], p, {'kind': kind, 'case': rep})
+    finish_tie(ctx, broken, dis, found=bool(bad))
+
+
+def run_C05(ctx):
+    import solver_oracles as so
+    import toy
+    broken = check_obligations(ctx, PROPS['C05']['theorems'])
+    dis, reals, runs = tie_solver(ctx, broken)
+    bad, checked, variants = [], 0, 0
+    # generated programs under several schedules (line names / ranks decide the order)
+    n_toy = ctx.n(150, 2500)
+    for k in range(n_toy):
+        rng = random.Random(f'{ctx.seed}/c05-toy/{k}')
+        c = toy.gen_case(rng, wild=rng.random() < 0.2, form_obs=False,
+                         prompt_mode=rng.choice(['none', 'total']))
+        base = None
+        names = [f'{tc.full(i)}.{b}' for tc in c.classes for i in tc.instances for b, _, _ in tc.fields]
+        names += [f'{tc.full(i)}.{b}' for tc in c.classes for i in tc.instances for b in tc.inputs]
+        nsched = ctx.n(4, 8)
+        for j in range(nsched):
+            if j == 0:
+                c.sched = None
+            else:
+                order = names[:]
+                rng.shuffle(order)
+                c.sched = dict(seed=str(j), ranks={n: i for i, n in enumerate(order)})
+            if j == nsched - 1 and len(c.forms) > 1:
+                c.forms = list(reversed(c.forms))
+            real, tsolver, _, _ = c.run_real()
+            sig = toy_signature(real, tsolver)
+            variants += 1
+            if base is None:
+                base = sig
+            elif sig != base:
+                bad.append(('toy', c.protocol(), f'result depends on the attempt order / request order: {str(base)[:120]} vs {str(sig)[:120]}'))
+                break
+        checked += 1
+    # shipped forms
+    nreal = 0
+    for r in runs[:ctx.n(25, 300)]:
+        if r['exception'] is not None and not isinstance(r['exception'], (NotImplementedError, TypeError, AssertionError)):
+            continue
+        rng = random.Random(f'{ctx.seed}/c05-real/{r["scenario_seed"]}')
+        inputs = sc_inputs(r)
+        base_run = so.rerun_with(r, file_inputs=inputs)
+        base = so.signature(base_run)
+        nreal += 1
+        if r['exception'] is None and so.signature(r)[:6] != base[:6]:
+            bad.append(('scenario', scenario_replay(r), 'file-vs-prompt: ' + so.describe_diff(so.signature(r), base)))
+        tests = []
+        for j in range(ctx.n(2, 5)):
+            tests.append((f'schedule {j}', lambda j=j: so.rerun_with(r, schedule=so.hash_schedule(f'{ctx.seed}/{j}'), file_inputs=inputs)))
+        if len(r['forms']) > 1:
+            tests.append(('request order', lambda: so.rerun_with(r, forms=list(reversed(r['forms'])), file_inputs=inputs)))
+        tests.append(('file layout', lambda: so.run_from_text(r, so.ini_text(inputs, rng))))
+        keys = sorted(inputs)
+        half = {k: inputs[k] for k in keys if rng.random() < 0.5}
+        split_policy = so.FixedPolicy(inputs)
+        tests.append(('file/prompt split', lambda: so.rerun_with(r, file_inputs=half, policy=split_policy)))
+        for label, fn in tests:
+            variants += 1
+            sig = so.signature(fn())
+            if label == 'file/prompt split' and split_policy.refused:
+                continue        # the split run needed an input the base run never supplied: not the same inputs
+            if sig != base:
+                bad.append(('scenario', dict(scenario_replay(r), variant=label), f'{label}: ' + so.describe_diff(base, sig)))
+        checked += 1
+    ctx.statement['c05-independence'] = {
+        'checked': checked, 'variants_run': variants, 'violations': len(bad), 'distinct_nontrivial': nreal,
+        'rule': 'each case is solved under the natural order and under further schedules (hook), reversed request, re-laid-out input file (shuffled sections/keys, spacing, comments, key case) and a random file/prompt split; all result signatures must be equal; non-trivial = shipped-form scenario',
+        'samples': [{'year': r['year'], 'forms': r['forms'], 'inputs': len(sc_inputs(r))} for r in runs[:2]]}
+    for kind, rep, p in bad:
+        key = 'independence:' + (p.split(':')[0] if kind == 'scenario' else 'toy')
+        if 'KeyError' in p:
+            key = 'independence:form-lookup-KeyError'
+        ctx.report(key + ':' + p[:50], p, {'kind': kind, 'case': rep})
+    finish_tie(ctx, broken, dis, found=bool(bad))
+
+
+def sc_inputs(r):
+    import scenarios as sc
+    return sc.inputs_of(r)
+
+
+def tie_ini(ctx, n, label='ini'):
+    import ini_stream
+    r = ini_stream.run(ctx.seed, n, lambda lines: common.run_driver(['ini ' + l for l in lines]))
+    ctx.streams[label] = {
+        'cases': r['cases'], 'disagreements': len(r['disagreements']), 'distribution': r['distribution'],
+        'distinct_nontrivial': r['cases'] - r['distribution'].get('malformed:MissingSectionHeaderError', 0),
+        'rule': 'configparser / InputStore / _create_fdf / PDF string decoding / fill selection: real code vs Lean model, text compared byte for byte; non-trivial = anything but a file rejected for a missing section header',
+        'samples': r.get('samples', [])[:2]}
+    return r['disagreements']
+
+
+def run_C19(ctx):
+    import c19_oracle as o
+    import scenarios as sc
+    from habutax import pdf_fields
+    broken = check_obligations(ctx, PROPS['C19']['theorems'])
+    dis = tie_ini(ctx, ctx.n(2500, 24000))
+    bad, fills, forms_filled, checked = [], 0, 0, 0
+    nsc = ctx.n(45, 500)
+    for k in range(nsc):
+        year = (2021, 2022, 2023)[k % 3]
+        sd = f'{ctx.seed}/c19/{k}'
+        pol, kind = sc.gen_policy(sd, year, kind='hsa' if k % 4 == 0 else None)
+        if k % 2 == 0:
+            pol.text = o.adversarial_text(sd)
+        r = sc.run(year, sc.request_for(sd, year, kind), pol)
+        r['scenario_seed'] = sd
+        if r['exception'] is not None or not r['ok']:
+            continue
+        res = o.run_fill(year, r['solver'])
+        fills += 1
+        forms_filled += len(res['fdfs'])
+        for key, msg in o.check_fill(year, r['solver'], res):
+            bad.append((key, msg, scenario_replay(r)))
+    # direct: length limits and choice lists never truncate / substitute
+    rng = random.Random(f'{ctx.seed}/c19-fields')
+    class F:  # minimal field object
+        def to_string(self, v):
+            return str(v)
+    for k in range(ctx.n(400, 4000)):
+        m = rng.choice([None, 0, 1, 5, 9, 17])
+        s = ''.join(rng.choice('ab()\\ 9') for _ in range(rng.randrange(0, 25)))
+        checked += 1
+        try:
+            got = pdf_fields.TextPDFField('t', 'f', max_length=m).value(s, F())
+            if got != s or (m is not None and len(s) > m):
+                bad.append(('text-truncation', f'TextPDFField(max_length={m}) turned {s!r} into {got!r}', {'max_length': m, 'text': s}))
+        except pdf_fields.PDFValueTooLong:
+            if m is None or len(s) <= m:
+                bad.append(('text-spurious-error', f'TextPDFField(max_length={m}) rejected {s!r}', {'max_length': m, 'text': s}))
+        choices = ['a', 'b', 'ab']
+        try:
+            got = pdf_fields.ChoicePDFField('t', 'f', choices).value(s, F())
+            if got != s or s not in choices:
+                bad.append(('choice-substitution', f'ChoicePDFField accepted {s!r} as {got!r}', {'text': s}))
+        except pdf_fields.PDFInvalidChoiceValue:
+            if s in choices:
+                bad.append(('choice-spurious-error', f'ChoicePDFField rejected {s!r}', {'text': s}))
+    ctx.statement['c19-fill'] = {
+        'checked': fills + checked, 'fills': fills, 'forms_filled': forms_filled, 'violations': len(bad),
+        'distinct_nontrivial': fills,
+        'rule': 'solved real returns (half with adversarial text in every string input) are written as solution files, read back and filled by the real PDFFiller with pdftk replaced by a recorder; every FDF is decoded by an independent PDF-string decoder and compared with the mapped text; forms, multiplicity and order checked; non-trivial = one fill of a solved return',
+        'samples': [{'adversarial_texts': o.ADVERSARIAL[:5]}]}
+    for key, msg, rep in bad:
+        ctx.report(key, msg, {'kind': 'scenario', 'case': rep})
+    if dis and not bad:
+        ctx.report('correspondence:ini', 'Ini/Pdf model and real code disagree: ' + str(dis[0])[:300], {'disagreement': dis[0]}, found=False)
+    elif broken and not bad:
+        ctx.report('obligation:' + broken[0], f'proof obligation(s) no longer check: {broken[:5]}', {'broken': broken}, found=False)
+
+
 PROPS = {
     'C01': dict(run=run_C01, theorems=[
         'HabuVerif.C01.solved_sound', 'HabuVerif.C01.failed_complete',
@@ -365,6 +554,20 @@ PROPS = {
         'HabuVerif.C03.solution_fixed_point', 'HabuVerif.C03.stores_only_grow',
         'HabuVerif.C03.attempt_keeps_values'],
         assumptions=['line definitions are deterministic and side-effect free (strategy trees)']),
+    'C04': dict(run=run_C04, theorems=[
+        'HabuVerif.C04.solved_contains_closure', 'HabuVerif.C04.solution_is_least',
+        'HabuVerif.C04.values_are_demanded', 'HabuVerif.C04.input_only_adds_no_line'],
+        assumptions=['line definitions are deterministic strategy trees; Field.form(name) is used only on forms that are loaded (see known findings)']),
+    'C05': dict(run=run_C05, theorems=[
+        'HabuVerif.C05.schedule_independent', 'HabuVerif.C05.no_error_outcome_in_final'],
+        assumptions=['prompt is absent or answers every question as a function of the input name (partial refusal is order-dependent by nature and excluded, as the property says)',
+                     'agreement of the abort KIND across schedules is not proved (partial); INI layout independence is proved for written files (Ini lemmas) and tested for hand-laid-out files']),
+    'C19': dict(run=run_C19, theorems=[
+        'HabuVerif.C19.fdf_decodes', 'HabuVerif.C19.carriage_return_is_lossy',
+        'HabuVerif.C19.unescaped_does_not_decode', 'HabuVerif.C19.filled_iff_needs_filing',
+        'HabuVerif.C19.filled_once', 'HabuVerif.C19.filled_in_order', 'HabuVerif.C19.no_truncation',
+        'HabuVerif.C19.no_substitution'],
+        assumptions=['pdftk reads FDF strings per ISO 32000 7.3.4.2 (the decoder in the model); text is printable ASCII as the property says (a raw CR is lossy, proved)']),
 }
 
 
